@@ -54,7 +54,8 @@ AVOID_EMPTY_TYPEDDICT = False
 
 
 def gen_leaf(rng, env, hashable=False, pool=None, member=False):
-    names = list(pool or (HASHABLE_LEAVES if hashable else [k for k in LEAVES if k not in ("bytes",)]))
+    from universe import EXOTIC
+    names = list(pool or (HASHABLE_LEAVES if hashable else [k for k in LEAVES if k not in ("bytes",) and k not in EXOTIC]))
     if member and AVOID_ANY_MEMBER:
         names = [n for n in names if n != "Any"]
     extra = [n for n, d in env["defs"].items() if d[0] in ("enum", "literal")]
